@@ -431,7 +431,39 @@ pub(crate) async fn basic_expand_heredoc_word(
     let mut expander = WordExpander::new(shell, params);
     expander.heredoc_mode = true;
     expander.disable_brace_expansion = true;
-    expander.basic_expand_to_str(word_str.as_ref()).await
+
+    // N.B. In a here-document body subject to expansion, `\<newline>` is a line continuation;
+    // it is removed when the body is read, i.e., before anything in it is expanded.
+    let body = remove_line_continuations(word_str.as_ref());
+    expander.basic_expand_to_str(body.as_str()).await
+}
+
+/// Removes every backslash-newline pair from the given string, leaving alone a newline
+/// that follows an escaped backslash.
+fn remove_line_continuations(s: &str) -> String {
+    let mut result = String::with_capacity(s.len());
+    let mut after_backslash = false;
+    for c in s.chars() {
+        if after_backslash {
+            // Drop both characters of a line continuation; keep any other escaped character
+            // along with its backslash.
+            if c != '\n' {
+                result.push('\\');
+                result.push(c);
+            }
+            after_backslash = false;
+        } else if c == '\\' {
+            after_backslash = true;
+        } else {
+            result.push(c);
+        }
+    }
+
+    if after_backslash {
+        result.push('\\');
+    }
+
+    result
 }
 
 /// Applies all basic expansion to the given word (represented as a string),
